@@ -309,10 +309,14 @@ fn is_user_def(t: &scale_info::PortableType) -> bool {
 pub struct FaultCase {
     pub base: Program,
     pub fault: Fault,
+    /// the base has two instantiations of one generic definition (two entries under one path); only the
+    /// calls whose behaviour does not pass through `types_equal` are judged (see `run`)
+    #[serde(default)]
+    pub shared_path_base: bool,
 }
 
 /// Evaluate one fault on one base registry.
-pub fn check_fault(base_prog: &Program, base: &PortableRegistry, fault: &Fault, ctx: &mut Ctx) {
+pub fn check_fault(base_prog: &Program, base: &PortableRegistry, fault: &Fault, shared: bool, ctx: &mut Ctx) {
     let reg = inject(base, fault);
     let mut spec = SettingsSpec::faithful();
     spec.root = "root".into();
@@ -330,7 +334,7 @@ pub fn check_fault(base_prog: &Program, base: &PortableRegistry, fault: &Fault, 
     };
     let size = base.types.len();
     let replay = || {
-        json!({"check": "C10", "case": serde_json::to_value(FaultCase { base: base_prog.clone(), fault: fault.clone() }).unwrap(), "source": base_prog.to_source()})
+        json!({"check": "C10", "case": serde_json::to_value(FaultCase { base: base_prog.clone(), fault: fault.clone(), shared_path_base: shared }).unwrap(), "source": base_prog.to_source()})
     };
     let kind = match fault {
         Fault::SwapIds(_) => "swap-ids".to_string(),
@@ -422,6 +426,11 @@ pub fn check_fault(base_prog: &Program, base: &PortableRegistry, fault: &Fault, 
         ),
     }
     // ---- ensure_unique_type_paths
+    // (on a base with two entries under one path the shape comparison walks the entries, and its behaviour on
+    // a dangling id is the documented "Panics if the given type ID is not found": only id faults are judged)
+    if shared && first_bad_id.is_none() {
+        return;
+    }
     ctx.exec(1);
     let mut r2 = reg.clone();
     let got = guarded(|| scale_typegen::utils::ensure_unique_type_paths(&mut r2).map_err(|e| ErrKind::of(&e)));
@@ -589,10 +598,71 @@ pub fn run(tier: &str, seed: u64) -> i32 {
                 continue;
             }
             for f in faults_of(&base) {
-                check_fault(&prog, &base, &f, ctx);
+                check_fault(&prog, &base, &f, false, ctx);
             }
         }
     }));
+    // bases in which one generic definition has two instantiations (two entries under one path that
+    // `ensure_unique_type_paths` leaves alone: "unique paths" in the library's sense): a fault in the second
+    // instantiation's entry, or in a helper below it, must be reported like any other
+    {
+        use crate::families::*;
+        let dg = DGeneric {
+            max_fields: if thorough { 2 } else { 1 },
+            max_insts: 2,
+            include_cf3: false,
+            body_forms: ALL_BODY_FORMS.to_vec(),
+            param_forms: if thorough { ALL_PARAM_FORMS.to_vec() } else { vec![ParamForm::One, ParamForm::Two, ParamForm::TwoSecondSkipped] },
+        };
+        let (gall, _, _) = enumerate(&dg, if thorough { 3 } else { 2 }, 5_000_000);
+        let bases: Vec<Program> = gall
+            .into_iter()
+            .filter(|(_, s)| s.insts.len() == 2 && !s.fields.is_empty() && crate::checks::c05::wf5_ok(s))
+            .filter_map(|(_, s)| {
+                let prog = s.program();
+                s.insts.iter().all(|a| coincidence(&prog.defs[G_D], a, &prog).is_ok()).then_some(prog)
+            })
+            .collect();
+        report.add(sweep(
+            &format!(
+                "faults x D-generic bases with two coincidence-free instantiations (fields <= {}, {} parameter forms)",
+                dg.max_fields,
+                dg.param_forms.len()
+            ),
+            &bases,
+            Duration::from_secs(if thorough { 900 } else { 150 }),
+            |p| json!({"program": p.to_source()}),
+            |prog, ctx| {
+                let base = elaborate(prog).registry;
+                // instantiations whose shapes differ (associated types) are C03/C04's subject
+                let mut r2 = base.clone();
+                let before: Vec<Vec<String>> = r2.types.iter().map(|t| t.ty.path.segments.clone()).collect();
+                if scale_typegen::utils::ensure_unique_type_paths(&mut r2).is_err()
+                    || before != r2.types.iter().map(|t| t.ty.path.segments.clone()).collect::<Vec<_>>()
+                {
+                    ctx.exclude("de-duplication renames something in the base (not unique paths)");
+                    return;
+                }
+                // faults whose documented outcome does not depend on the shape comparison: id faults, missing
+                // settings paths, and faults in the entries of the generic definition itself (the entry is
+                // turned into an item, and fails there, before it is compared with the first instantiation)
+                let is_d = |e: u32| base.types[e as usize].ty.path.segments.last().map(|l| l == "D").unwrap_or(false);
+                for f in faults_of(&base) {
+                    let direct = match &f {
+                        Fault::SwapIds(_) | Fault::ShiftIds(_) | Fault::CompactPathNone | Fault::BitsPathNone => true,
+                        Fault::MixFields { entry, .. } => is_d(*entry),
+                        Fault::Dangling { site: Site::Field { entry, .. }, .. } => is_d(*entry),
+                        Fault::Dangling { .. } => false,
+                    };
+                    if direct {
+                        check_fault(prog, &base, &f, true, ctx);
+                    } else {
+                        ctx.note("faults below a shared-path entry not judged (shape comparison documented to panic on missing ids)", 1);
+                    }
+                }
+            },
+        ));
+    }
     // fault-free side
     let settings = faithful_neighbourhood();
     let mut st = explore(&d, &Budget { max_depth: 2, wall: Duration::from_secs(60), max_states: 10_000_000 }, seed, |s, ctx| {
@@ -653,7 +723,7 @@ pub fn replay(v: &serde_json::Value) -> Result<Vec<Violation>, String> {
     } else {
         let c: FaultCase = serde_json::from_value(v["case"].clone()).map_err(|e| e.to_string())?;
         let base = elaborate(&c.base).registry;
-        check_fault(&c.base, &base, &c.fault, &mut ctx);
+        check_fault(&c.base, &base, &c.fault, c.shared_path_base, &mut ctx);
     }
     Ok(ctx.violations)
 }
